@@ -44,6 +44,8 @@ type Spy struct {
 	Fired      bool
 	FiredAt    string
 	ordOf      map[int]int
+	// OnOp, when set, sees every KV operation issued through decorated stores (store name, kind, key).
+	OnOp func(store, kind string, key []byte)
 }
 
 func NewSpy() *Spy { return &Spy{ordOf: map[int]int{}} }
@@ -210,6 +212,9 @@ func applyFramesOnStack() int {
 // op is called before every KV operation issued through this branch.
 func (k *spyKV) op(kind string, key []byte, write bool) {
 	s := k.ms.spy
+	if s.OnOp != nil {
+		s.OnOp(k.name, kind, key)
+	}
 	// the innermost open branch; branches that returned without Write() are only
 	// noticed here: their ApplyFuncIfNoError frame is no longer on the stack
 	if len(s.active) > 0 && s.active[len(s.active)-1] != k.ms.id {
